@@ -274,6 +274,17 @@ def run(chk):
     ]
     chk.bounded('documented rewrites in cascade', CASCADES, check_law, classify=lambda c: c[2], bound=f'{len(CASCADES)} instances where one documented rewrite enables the next')
 
+    # ---- the paths the normaliser treats specially (addresses, registry keys) with constants of EVERY kind: total and reflexive like everywhere else
+    SPECIAL_PATHS = ['ipv4-addr:value', 'ipv6-addr:value', 'windows-registry-key:key', 'windows-registry-key:values[*].name', 'windows-registry-key:values[0].name', 'windows-registry-key:values[*].data']
+    CONSTS = ['1', '1.5', 'true', "'10.0.0.1'", "'10.0.0.0/8'", "'::1/64'", "'HKEY_X\\\\Key'", "''", "t'2020-01-01T00:00:00Z'", "h'ab'", "b'YWJj'"]
+    def special_cases():
+        for path in SPECIAL_PATHS:
+            for c in CONSTS:
+                for op in ('=', '!=', '<', 'LIKE') if c.startswith("'") else ('=', '!=') if c in ('true', 'false') else ('=', '!=', '<'): yield f'[{path} {op} {c}]'
+            for st in ('(1, 2)', "('10.0.0.1', '10.0.0.0/8')", "(1, 'x')", '(true, false)'): yield f'[{path} IN {st}]'
+    chk.bounded('special paths x every constant kind: total and reflexive', list(special_cases()), check_total, classify=lambda x: x,
+                bound=f'{len(SPECIAL_PATHS)} special paths x {len(CONSTS)} constants of every kind x 3-4 operators, plus set literals')
+
     # ---- special-value canonicalisation (documented rewrites of the normaliser): CIDR networks and registry-key case, against integer arithmetic
     from stix2.equivalence.pattern.transform.specials import _mask_bytes
     def mask_cases():
